@@ -6,7 +6,8 @@ package main
 //
 //	content(p) = (id, body, media_type, audience.name)
 //	version    "an opaque string used to distinguish between versions of the same publication": a function of the
-//	           content - equal content gives the equal version, different content of one id a different version,
+//	           content - equal content gives the equal version, different content of one id a different version
+//	           (contents whose properties concatenate to the same bytes are only counted, see sharedVersion),
 //	           never empty after the server minted it
 //	CreatePublication / UpdatePublication (PublicationApi): content as requested (update mask respected), version
 //	           minted, publish_time = now and the receipt reset (not ACCEPTED/REJECTED, no time, no reason) whenever
@@ -162,10 +163,23 @@ func checkVersion(t *tc, op, id string, p *refPub) {
 	verByContent[key] = p.version
 	vkey := id + "\x00" + p.version
 	if other, ok := contentByVer[vkey]; ok && other != p.parts() {
-		t.viol("version-not-distinguishing", op+":"+contentDiffClass(other, p.parts()), "publication %q: different contents share version %s: (body, media_type, audience) %q and %q", id, p.version, other, p.parts())
+		sharedVersion(t, op, id, p.version, other, p.parts())
 		return
 	}
 	contentByVer[vkey] = p.parts()
+}
+
+// sharedVersion judges two different contents of one publication that carry the same version. A version that
+// ignores a content property (the contents differ and so do their concatenations) is a violation. Contents whose
+// properties concatenate to the same byte string (body "ab" + media_type "" vs body "a" + media_type "b") share a
+// version only under a hash without field separators; the C20 statement does not fix the hash format, so that case
+// is counted as an observation.
+func sharedVersion(t *tc, op, id, version string, a, b [3]string) {
+	if a[0]+a[1]+a[2] == b[0]+b[1]+b[2] {
+		t.r.Count("publication/open-domain:version-shared-by-contents-with-equal-concatenation", 1)
+		return
+	}
+	t.viol("version-not-distinguishing", op+":"+contentDiffClass(a, b), "publication %q: different contents share version %s: (body, media_type, audience) %q and %q", id, version, a, b)
 }
 
 var (
@@ -454,7 +468,7 @@ func publicationCase(r *vk.Run, idx int) {
 				checkFresh(op, id, stored, changed)
 				if changed && cur.minted && stored.version == cur.version {
 					// also caught by checkVersion when both contents were seen; kept for first-time contents
-					t.viol("version-not-distinguishing", "UpdatePublication:"+contentDiffClass(cur.parts(), stored.parts()), "content changed from %s to %s but the version stayed %s", cur.contentKey(id), stored.contentKey(id), stored.version)
+					sharedVersion(t, "UpdatePublication", id, stored.version, cur.parts(), stored.parts())
 				}
 			}
 			ref[id] = stored
